@@ -1,6 +1,7 @@
 import Driver.RangeSplit
 import Driver.Path
 import Driver.Iov
+import Driver.RangeLock
 /-! `driver <model>`: one op per stdin line, one canonical result line per op on stdout. -/
 
 structure Model where
@@ -15,23 +16,26 @@ def dispatch (model : String) : Option Model :=
   | "rs" => some (pureModel Driver.RangeSplit.step)
   | "path" => some (pureModel Driver.Path.step)
   | "iov" => some ⟨Driver.Iov.St, {}, Driver.Iov.step⟩
+  | "rangelock" => some ⟨Photon.RangeLock.State, {}, Driver.RangeLock.step⟩
   | _ => none
 
-partial def loop (h : IO.FS.Stream) (out : IO.FS.Stream) (m : Model) (s : m.σ) : IO Unit := do
+partial def loop (h : IO.FS.Stream) (out : IO.FS.Stream) (m : Model) (interactive : Bool) (s : m.σ) : IO Unit := do
   let line ← h.getLine
   if line.isEmpty then return ()
   let toks := (line.trimAscii.toString.splitOn " ").filter (· ≠ "")
   let (s', r) := m.step s toks
   out.putStrLn r
-  loop h out m s'
+  if interactive then out.flush
+  loop h out m interactive s'
 
 def main (args : List String) : IO UInt32 := do
+  let (args, interactive) := if args.contains "-i" then (args.filter (· ≠ "-i"), true) else (args, false)
   match args with
   | [m] =>
     match dispatch m with
     | some md =>
       let out ← IO.getStdout
-      loop (← IO.getStdin) out md md.init
+      loop (← IO.getStdin) out md interactive md.init
       out.flush
       return 0
     | none => IO.eprintln s!"unknown model {m}"; return 2
